@@ -630,6 +630,10 @@ def class_specs(draw, field_types: st.SearchStrategy[t.Any], *, max_fields: int 
     """A flat pane dataclass definition that pane must accept."""
     n = draw(st.integers(0 if max_fields >= 3 else 1, max_fields))
     names = draw(st.lists(st.sampled_from(FIELD_NAMES), min_size=n, max_size=n, unique=True))
+    if n and draw(st.integers(0, 11)) == 11:
+        # a field called like something every pane dataclass inherits (here a classmethod of PaneBase): the inherited
+        # attribute is not a default for it
+        names[draw(st.integers(0, n - 1))] = 'from_yaml_all'
     opts: t.Dict[str, t.Any] = {}
     if layouts:
         lay = draw(st.sampled_from([None, ('tuple', 'struct'), ('struct',), ('tuple',), None, ('struct', 'tuple')]))
